@@ -16,8 +16,11 @@ theorem noFail_append (a b : List Ev) : noFail (a ++ b) = (noFail a && noFail b)
 theorem hasResp_append (a b : List Ev) : hasResp (a ++ b) = (hasResp a || hasResp b) := by simp [hasResp, List.any_append]
 theorem hasAbs_append (a b : List Ev) : hasAbs (a ++ b) = (hasAbs a || hasAbs b) := by simp [hasAbs, List.any_append]
 
-theorem goodW_append {C : List Ev → Prop} (t1 t2 : List Ev) :
-    GoodW C (t1 ++ t2) ↔ GoodW (fun s => C (s ++ t2)) t1 ∧ GoodW C t2 := by
+theorem retriedAt_append (f s : Nat) (a b : List Ev) : retriedAt f s (a ++ b) = (retriedAt f s a || retriedAt f s b) := by
+  simp [retriedAt, List.any_append]
+
+theorem goodW_append {C : Ev → List Ev → Prop} (t1 t2 : List Ev) :
+    GoodW C (t1 ++ t2) ↔ GoodW (fun e s => C e (s ++ t2)) t1 ∧ GoodW C t2 := by
   induction t1 with
   | nil => simp [GoodW]
   | cons e t ih =>
@@ -26,11 +29,11 @@ theorem goodW_append {C : List Ev → Prop} (t1 t2 : List Ev) :
     · rintro ⟨h1, h2, h3⟩; exact ⟨⟨h1, h2⟩, h3⟩
     · rintro ⟨⟨h1, h2⟩, h3⟩; exact ⟨h1, h2, h3⟩
 
-theorem goodW_mono {C C' : List Ev → Prop} (h : ∀ s, C s → C' s) : ∀ t, GoodW C t → GoodW C' t
+theorem goodW_mono {C C' : Ev → List Ev → Prop} (h : ∀ e s, C e s → C' e s) : ∀ t, GoodW C t → GoodW C' t
   | [], _ => trivial
-  | _ :: t, ⟨h1, h2⟩ => ⟨fun hf => h _ (h1 hf), goodW_mono h t h2⟩
+  | _ :: t, ⟨h1, h2⟩ => ⟨fun hf => h _ _ (h1 hf), goodW_mono h t h2⟩
 
-theorem goodW_of_noFail {C : List Ev → Prop} : ∀ t, noFail t = true → GoodW C t
+theorem goodW_of_noFail {C : Ev → List Ev → Prop} : ∀ t, noFail t = true → GoodW C t
   | [], _ => trivial
   | e :: t, h => by
     simp only [noFail, List.all_cons, Bool.and_eq_true, Bool.not_eq_true'] at h
@@ -38,7 +41,7 @@ theorem goodW_of_noFail {C : List Ev → Prop} : ∀ t, noFail t = true → Good
     rw [h.1] at hf; cases hf
 
 /-- the event at position i is a failure: the events after it are closed -/
-theorem goodW_get {C : List Ev → Prop} : ∀ (t : List Ev) (i : Nat) (e : Ev), GoodW C t → t[i]? = some e → e.isFail = true → C (t.drop (i + 1))
+theorem goodW_get {C : Ev → List Ev → Prop} : ∀ (t : List Ev) (i : Nat) (e : Ev), GoodW C t → t[i]? = some e → e.isFail = true → C e (t.drop (i + 1))
   | [], _, _, _, h, _ => by simp at h
   | a :: t, 0, e, hg, h, hf => by
     simp at h; subst h
@@ -104,6 +107,7 @@ theorem run_retsNil {P : List Fn} {A : Audit} {f : Nat} {sk : Sk} {ρ : Env} {tr
   | iteR _ ih => intro hn; simp only [retsNil, Bool.and_eq_true] at hn; exact ih hn.2
   | succ _ ih => intro hn; exact ih (by simpa [retsNil] using hn)
   | resp _ ih => intro hn; exact ih (by simpa [retsNil] using hn)
+  | attempt _ ih => intro hn; exact ih (by simpa [retsNil] using hn)
   | ret hv =>
     intro hn
     simp only [retsNil, beq_iff_eq] at hn
@@ -117,49 +121,68 @@ structure WF (P : List Fn) (A : Audit) : Prop where
   ok : ∀ (g : Nat) (G : Fn), P[g]? = some G → fnDrops P A G = []
   retNil : ∀ (g : Nat) (G : Fn), P[g]? = some G → G.noErrResult = true → retsNil G.sk = true
 
-/-- what the analysis guarantees for an execution that starts in mode m -/
-def ModeOK (κ : FKind) (m : Mode) (tr : List Ev) (x : CV) : Prop :=
+/-- what the analysis guarantees for an execution (of function f) that starts in mode m -/
+def ModeOK (κ : FKind) (f : Nat) (m : Mode) (tr : List Ev) (x : CV) : Prop :=
   match m with
   | .clean _ => Good κ x tr
-  | .failed _ ans => noSucc tr = true ∧ noFail tr = true ∧
-      (match κ with | .void => ans = true ∨ hasResp tr = true | .val => False | _ => x.isHard = true)
+  | .failed s ans rt => Good κ x tr ∧
+      ((rt = true ∧ retriedAt f s tr = true) ∨
+       (noSucc tr = true ∧ noFail tr = true ∧
+        (match κ with | .void => ans = true ∨ hasResp tr = true | .val => False | _ => x.isHard = true)))
 
 theorem append_nil_iff {α} {a b : List α} : a ++ b = [] ↔ a = [] ∧ b = [] := List.append_eq_nil_iff
 
-private theorem closed_of_failedOK {κ : FKind} {r : CV} {tr : List Ev} {site : Nat}
-    (h : ModeOK κ (.failed site false) tr r) : closed κ r tr = true := by
-  obtain ⟨h1, h2, h3⟩ := h
-  cases κ <;> simp_all [closed, exitOK]
+/-- the failed call itself: what follows it in failed mode is closed -/
+private theorem closed_of_failedOK {κ : FKind} {r : CV} {tr : List Ev} {f site : Nat} {e : EKind} {rt : Bool}
+    (h : ModeOK κ f (.failed site false rt) tr r) : closedFor κ r (.sfail f site e) tr = true := by
+  obtain ⟨_, h | ⟨h1, h2, h3⟩⟩ := h
+  · simp [closedFor, h.2]
+  · cases κ <;> simp_all [closedFor, exitOK]
 
-private theorem good_of_failedOK {κ : FKind} {r : CV} {tr : List Ev} {site : Nat} {ans : Bool}
-    (h : ModeOK κ (.failed site ans) tr r) : Good κ r tr := goodW_of_noFail tr h.2.1
+private theorem good_of_failedOK {κ : FKind} {r : CV} {tr : List Ev} {f site : Nat} {ans rt : Bool}
+    (h : ModeOK κ f (.failed site ans rt) tr r) : Good κ r tr := h.1
 
 /-- a closed suffix of the callee (which handed back a hard error) stays closed when the caller goes on in failed mode -/
-private theorem closed_extend_failed {κ' κ : FKind} {x r : CV} {s tr2 : List Ev} {site : Nat}
-    (hs : closed κ' x s = true) (h2 : ModeOK κ (.failed site false) tr2 r) : closed κ r (s ++ tr2) = true := by
-  obtain ⟨h1, h2', h3⟩ := h2
-  simp only [closed, Bool.or_eq_true, Bool.and_eq_true] at hs ⊢
-  rcases hs with ha | ⟨⟨hs1, hs2⟩, _⟩
-  · left; simp [hasAbs_append, ha]
-  · right
-    refine ⟨⟨by simp [noSucc_append, hs1, h1], by simp [noFail_append, hs2, h2']⟩, ?_⟩
-    cases κ <;> simp_all [exitOK, hasResp_append]
+private theorem closed_extend_failed {κ' κ : FKind} {x r : CV} {e : Ev} {s tr2 : List Ev} {f site : Nat}
+    (hs : closedFor κ' x e s = true) (h2 : ModeOK κ f (.failed site false false) tr2 r) : closedFor κ r e (s ++ tr2) = true := by
+  obtain ⟨_, h | ⟨h1, h2', h3⟩⟩ := h2
+  · exact absurd h.1 (by simp)
+  cases e with
+  | sfail g sg k =>
+    simp only [closedFor, Bool.or_eq_true, Bool.and_eq_true] at hs ⊢
+    rcases hs with (ha | hr) | ⟨⟨hs1, hs2⟩, _⟩
+    · left; left; simp [hasAbs_append, ha]
+    · left; right; simp [retriedAt_append, hr]
+    · right
+      refine ⟨⟨by simp [noSucc_append, hs1, h1], by simp [noFail_append, hs2, h2']⟩, ?_⟩
+      cases κ <;> simp_all [exitOK, hasResp_append]
+  | sok _ _ => rfl
+  | succ _ => rfl
+  | resp _ => rfl
+  | absorbed _ _ => rfl
 
-/-- the callee did not hand back a hard error although one of its storage calls failed: only an absorbed failure can be behind it -/
-private theorem closed_extend_absorbed {κ' κ : FKind} {x r : CV} {s t : List Ev}
+/-- the callee did not hand back a hard error although one of its storage calls failed: only an absorbed (or retried) failure can be behind it -/
+private theorem closed_extend_absorbed {κ' κ : FKind} {x r : CV} {e : Ev} {s t : List Ev}
     (hκ : κ' = .err ∨ κ' = .bool ∨ κ' = .val) (hx : x.isHard = false ∨ κ' = .val)
-    (hs : closed κ' x s = true) : closed κ r (s ++ t) = true := by
-  simp only [closed, Bool.or_eq_true, Bool.and_eq_true] at hs ⊢
-  rcases hs with ha | ⟨_, he⟩
-  · left; simp [hasAbs_append, ha]
-  · exfalso
-    rcases hκ with h | h | h <;> subst h <;> simp [exitOK] at he
-    · rcases hx with hx | hx
-      · rw [hx] at he; cases he
-      · cases hx
-    · rcases hx with hx | hx
-      · rw [hx] at he; cases he
-      · cases hx
+    (hs : closedFor κ' x e s = true) : closedFor κ r e (s ++ t) = true := by
+  cases e with
+  | sfail g sg k =>
+    simp only [closedFor, Bool.or_eq_true, Bool.and_eq_true] at hs ⊢
+    rcases hs with (ha | hr) | ⟨_, he⟩
+    · left; left; simp [hasAbs_append, ha]
+    · left; right; simp [retriedAt_append, hr]
+    · exfalso
+      rcases hκ with h | h | h <;> subst h <;> simp [exitOK] at he
+      · rcases hx with hx | hx
+        · rw [hx] at he; cases he
+        · cases hx
+      · rcases hx with hx | hx
+        · rw [hx] at he; cases he
+        · cases hx
+  | sok _ _ => rfl
+  | succ _ => rfl
+  | resp _ => rfl
+  | absorbed _ _ => rfl
 
 theorem anyErrKind_of_mem {P : List Fn} {fs : List Nat} {g : Nat} {G : Fn} (hg : g ∈ fs) (hG : P[g]? = some G)
     (hk : G.kind = .err ∨ G.kind = .bool) : anyErrKind P fs = true := by
@@ -177,89 +200,147 @@ theorem anyVoid_of_mem {P : List Fn} {fs : List Nat} {g : Nat} {G : Fn} (hg : g 
 theorem tolOf_eq {P : List Fn} {A : Audit} {f : Nat} {F : Fn} (hF : P[f]? = some F) : tolOf P A f = tolSites A F := by
   simp [tolOf, hF]
 
-/-- a leaf call (or a call of a function with an error result) handed back a hard error: what follows is closed, or absorbed -/
-private theorem hard_step {κ : FKind} {tolS : List (Nat × List String)} {f site : Nat} {e : EKind} {tr : List Ev} {r : CV}
-    (h2 : ModeOK κ (hardMode tolS site) tr r) :
-    closed κ r (absorbEv tolS f site (.hard e) ++ tr) = true ∧ Good κ r (absorbEv tolS f site (.hard e) ++ tr) := by
+/-- a call handed back a hard error: what follows is closed (for the failure of a leaf call at this site), and good -/
+private theorem hard_step {κ : FKind} {tolS : List (Nat × List String)} {f site : Nat} {e : EKind} {leaf : Bool} {tr : List Ev} {r : CV}
+    (h2 : ModeOK κ f (hardMode tolS site leaf) tr r) :
+    closedFor κ r (.sfail f site e) (absorbEv tolS f site (.hard e) ++ tr) = true ∧ Good κ r (absorbEv tolS f site (.hard e) ++ tr) := by
   unfold hardMode at h2
   cases ht : tolLookup tolS site with
   | some allow =>
     rw [ht] at h2
     simp only [absorbEv, CV.isHard, ht, Option.isSome_some, Bool.and_self, if_true, List.cons_append, List.nil_append]
-    exact ⟨by simp [closed, hasAbs, Ev.isAbs], (fun hf => by cases hf), h2⟩
+    exact ⟨by simp [closedFor, hasAbs, Ev.isAbs], (fun hf => by cases hf), h2⟩
   | none =>
     rw [ht] at h2
     simp only [absorbEv, CV.isHard, ht, Option.isSome_none, Bool.and_false, if_false, List.nil_append, Bool.false_eq_true]
     exact ⟨closed_of_failedOK h2, good_of_failedOK h2⟩
 
+/-- a call may be made in mode m and the trace that starts with its event is good: that is what mode m asks for -/
+private theorem modeOK_of_call {κ : FKind} {f site : Nat} {leaf : Bool} {m : Mode} {r : Option (Nat × List String)} {tr : List Ev} {x : CV}
+    (hcm : callMode m site leaf = some r) (hg : Good κ x tr) (hhead : leaf = true → retriedAt f site tr = true) : ModeOK κ f m tr x := by
+  cases m with
+  | clean r' => exact hg
+  | failed s ans rt =>
+    simp only [callMode] at hcm
+    split at hcm
+    · rename_i hc
+      simp only [Bool.and_eq_true, beq_iff_eq] at hc
+      obtain ⟨⟨hrt, hl⟩, hs⟩ := hc
+      subst hs
+      exact ⟨hg, Or.inl ⟨hrt, hhead hl⟩⟩
+    · cases hcm
+
+private theorem callMode_nonleaf_clean {m : Mode} {site : Nat} {r : Option (Nat × List String)}
+    (h : callMode m site false = some r) : m = .clean r := by
+  cases m with
+  | clean r' => simp [callMode] at h; rw [h]
+  | failed s ans rt => simp [callMode] at h
+
 theorem drops_sound {P : List Fn} {A : Audit} (hW : WF P A) {f : Nat} {sk : Sk} {ρ : Env} {tr : List Ev} {x : CV}
     (h : Run P A f sk ρ tr x) :
-    ∀ F, P[f]? = some F → ∀ a m, Sat ρ a → drops P A.benign F.sites (tolSites A F) F.kind sk a m = [] → ModeOK F.kind m tr x := by
+    ∀ F, P[f]? = some F → ∀ a m, Sat ρ a → drops P A.benign F.sites (tolSites A F) F.kind sk a m = [] → ModeOK F.kind f m tr x := by
   induction h with
   | @leafOk f site c v k ρ tr r x hc hx _ ih =>
     intro F hF a m hs hd
-    cases m with
-    | failed s b => simp [drops] at hd
-    | clean aft =>
-      cases c with
-      | delegate n => simp [Callee.isLeaf] at hc
-      | op fs => simp [Callee.isLeaf] at hc
-      | storage mth =>
-        simp only [drops, append_nil_iff] at hd
-        rcases hx with rfl | rfl
-        · exact ⟨(fun hf => by cases hf), ih F hF _ (.clean aft) (sat_set hs v (by rfl)) hd.1.1.1⟩
-        · exact ⟨(fun hf => by cases hf), ih F hF _ (.clean aft) (sat_set hs v (by rfl)) hd.1.1.2⟩
-      | dyn n =>
-        simp only [drops, append_nil_iff] at hd
-        rcases hx with rfl | rfl
-        · exact ⟨(fun hf => by cases hf), ih F hF _ (.clean aft) (sat_set hs v (by rfl)) hd.1.1.1⟩
-        · exact ⟨(fun hf => by cases hf), ih F hF _ (.clean aft) (sat_set hs v (by rfl)) hd.1.1.2⟩
-  | @leafFail f site c v k ρ tr r e hc _ ih =>
-    intro F hF a m hs hd
-    cases m with
-    | failed s b => simp [drops] at hd
-    | clean aft =>
-      have hdH : drops P A.benign F.sites (tolSites A F) F.kind k (a.set v .H) (hardMode (tolSites A F) site) = [] := by
+    simp only [drops] at hd
+    cases hcm : callMode m site c.isLeaf with
+    | none =>
+      rw [hcm] at hd
+      cases m with
+      | clean r' => simp [callMode] at hcm
+      | failed s ans rt => simp [Mode.pendingSite] at hd
+    | some aft =>
+      rw [hcm] at hd
+      have hN : drops P A.benign F.sites (tolSites A F) F.kind k (a.set v .N) (.clean aft) = [] ∧
+          drops P A.benign F.sites (tolSites A F) F.kind k (a.set v .S) (.clean aft) = [] := by
         cases c with
         | delegate n => simp [Callee.isLeaf] at hc
         | op fs => simp [Callee.isLeaf] at hc
-        | storage mth => simp only [drops, append_nil_iff] at hd; exact hd.1.2
-        | dyn n => simp only [drops, append_nil_iff] at hd; exact hd.1.2
+        | storage mth => simp only [append_nil_iff] at hd; exact ⟨hd.1.1.1, hd.1.1.2⟩
+        | dyn n => simp only [append_nil_iff] at hd; exact ⟨hd.1.1.1, hd.1.1.2⟩
+      have hg : Good F.kind r (Ev.sok f site :: tr) := by
+        rcases hx with rfl | rfl
+        · exact ⟨(fun hf => by cases hf), ih F hF _ (.clean aft) (sat_set hs v (by rfl)) hN.1⟩
+        · exact ⟨(fun hf => by cases hf), ih F hF _ (.clean aft) (sat_set hs v (by rfl)) hN.2⟩
+      exact modeOK_of_call hcm hg (fun _ => by simp [retriedAt, Ev.isCallAt])
+  | @leafFail f site c v k ρ tr r e hc _ ih =>
+    intro F hF a m hs hd
+    simp only [drops] at hd
+    cases hcm : callMode m site c.isLeaf with
+    | none =>
+      rw [hcm] at hd
+      cases m with
+      | clean r' => simp [callMode] at hcm
+      | failed s ans rt => simp [Mode.pendingSite] at hd
+    | some aft =>
+      rw [hcm] at hd
+      have hdH : drops P A.benign F.sites (tolSites A F) F.kind k (a.set v .H) (hardMode (tolSites A F) site true) = [] := by
+        cases c with
+        | delegate n => simp [Callee.isLeaf] at hc
+        | op fs => simp [Callee.isLeaf] at hc
+        | storage mth => simp only [append_nil_iff] at hd; exact hd.1.2
+        | dyn n => simp only [append_nil_iff] at hd; exact hd.1.2
       rw [tolOf_eq hF]
       have h2 := ih F hF _ _ (sat_set hs v (by rfl)) hdH
       obtain ⟨hc1, hc2⟩ := hard_step (f := f) (e := e) h2
-      exact ⟨fun _ => hc1, hc2⟩
+      have hg : Good F.kind r (Ev.sfail f site e :: (absorbEv (tolSites A F) f site (.hard e) ++ tr)) := ⟨fun _ => hc1, hc2⟩
+      exact modeOK_of_call hcm hg (fun _ => by simp [retriedAt, Ev.isCallAt])
   | @delegateOk f site n v k ρ tr r x _ ih =>
     intro F hF a m hs hd
-    cases m with
-    | failed s b => simp [drops] at hd
-    | clean aft =>
-      simp only [drops, append_nil_iff] at hd
+    simp only [drops] at hd
+    cases hcm : callMode m site (Callee.delegate n).isLeaf with
+    | none =>
+      rw [hcm] at hd
+      cases m with
+      | clean r' => simp [callMode] at hcm
+      | failed s ans rt => simp [Mode.pendingSite] at hd
+    | some aft =>
+      rw [hcm] at hd
+      have hm := callMode_nonleaf_clean hcm
+      subst hm
+      simp only [append_nil_iff] at hd
       exact ih F hF _ (.clean aft) (sat_set hs v (satU x)) hd.1.1
   | @delegateFail f site n v k ρ tr r x e _ ih =>
     intro F hF a m hs hd
-    cases m with
-    | failed s b => simp [drops] at hd
-    | clean aft =>
-      simp only [drops, append_nil_iff] at hd
-      have h2 := ih F hF _ (.failed site true) (sat_set hs v (satU x)) hd.1.2
-      obtain ⟨h21, h22, h23⟩ := h2
+    simp only [drops] at hd
+    cases hcm : callMode m site (Callee.delegate n).isLeaf with
+    | none =>
+      rw [hcm] at hd
+      cases m with
+      | clean r' => simp [callMode] at hcm
+      | failed s ans rt => simp [Mode.pendingSite] at hd
+    | some aft =>
+      rw [hcm] at hd
+      have hm := callMode_nonleaf_clean hcm
+      subst hm
+      simp only [append_nil_iff] at hd
+      have h2 := ih F hF _ (.failed site true false) (sat_set hs v (satU x)) hd.1.2
+      obtain ⟨hgood, h2 | ⟨h21, h22, h23⟩⟩ := h2
+      · exact absurd h2.1 (by simp)
       simp only [ModeOK, Good, GoodW]
-      refine ⟨fun _ => ?_, (fun hf => by cases hf), goodW_of_noFail tr h22⟩
+      refine ⟨fun _ => ?_, (fun hf => by cases hf), hgood⟩
       have : noSucc (Ev.resp n :: tr) = true := by simpa [noSucc, Ev.isSucc] using h21
       have hnf : noFail (Ev.resp n :: tr) = true := by simpa [noFail, Ev.isFail] using h22
-      simp only [closed, Bool.or_eq_true, Bool.and_eq_true]
+      simp only [closedFor, Bool.or_eq_true, Bool.and_eq_true]
       right
       refine ⟨⟨this, hnf⟩, ?_⟩
       cases hk : F.kind <;> simp_all [exitOK, hasResp, Ev.isResp]
   | @op f site fs v k ρ ρ0 tr1 tr2 r x g G hg hG _ _ ih1 ih2 =>
     intro F hF a m hs hd
-    cases m with
-    | failed s b => simp [drops] at hd
-    | clean aft =>
+    simp only [drops] at hd
+    cases hcm : callMode m site (Callee.op fs).isLeaf with
+    | none =>
+      rw [hcm] at hd
+      cases m with
+      | clean r' => simp [callMode] at hcm
+      | failed s ans rt => simp [Mode.pendingSite] at hd
+    | some aft =>
+      rw [hcm] at hd
+      have hm := callMode_nonleaf_clean hcm
+      subst hm
       have h1 : Good G.kind x tr1 := ih1 G hG [] (.clean none) (sat_nil ρ0) (hW.ok g G hG)
       rw [tolOf_eq hF]
-      simp only [drops, append_nil_iff] at hd
+      simp only [append_nil_iff] at hd
       obtain ⟨⟨⟨hdN, hdE⟩, hdV⟩, _⟩ := hd
       simp only [ModeOK, Good]
       by_cases hne : G.noErrResult = true
@@ -269,21 +350,29 @@ theorem drops_sound {P : List Fn} {A : Audit} (hW : WF P A) {f : Nat} {sk : Sk} 
         have h2 := ih2 F hF _ (.clean aft) (sat_set hs v (by rfl)) hdN
         simp only [absorbEv, CV.isHard, Bool.false_and, if_false, Bool.false_eq_true, List.nil_append]
         rw [goodW_append]
-        refine ⟨goodW_mono (fun s hcs => ?_) tr1 h1, h2⟩
+        refine ⟨goodW_mono (fun e s hcs => ?_) tr1 h1, h2⟩
         simp only [Fn.noErrResult, Bool.or_eq_true, beq_iff_eq] at hne
         rcases hne with hv | hv
         · -- a handler: it has answered by itself; the caller must not go on building a success
           have hvoid := anyVoid_of_mem hg hG hv
           rw [if_pos hvoid] at hdV
-          have h2' := ih2 F hF _ (.failed site true) (sat_set hs v (by rfl)) hdV
-          obtain ⟨h21, h22, h23⟩ := h2'
+          have h2' := ih2 F hF _ (.failed site true false) (sat_set hs v (by rfl)) hdV
+          obtain ⟨_, h2' | ⟨h21, h22, h23⟩⟩ := h2'
+          · exact absurd h2'.1 (by simp)
           rw [hv] at hcs
-          simp only [closed, Bool.or_eq_true, Bool.and_eq_true, exitOK] at hcs ⊢
-          rcases hcs with ha | ⟨⟨hs1, hs2⟩, hs3⟩
-          · left; simp [hasAbs_append, ha]
-          · right
-            refine ⟨⟨by simp [noSucc_append, hs1, h21], by simp [noFail_append, hs2, h22]⟩, ?_⟩
-            cases hk : F.kind <;> simp_all [hasResp_append]
+          cases e with
+          | sfail ge se ke =>
+            simp only [closedFor, Bool.or_eq_true, Bool.and_eq_true, exitOK] at hcs ⊢
+            rcases hcs with (ha | hr) | ⟨⟨hs1, hs2⟩, hs3⟩
+            · left; left; simp [hasAbs_append, ha]
+            · left; right; simp [retriedAt_append, hr]
+            · right
+              refine ⟨⟨by simp [noSucc_append, hs1, h21], by simp [noFail_append, hs2, h22]⟩, ?_⟩
+              cases hk : F.kind <;> simp_all [hasResp_append]
+          | sok _ _ => rfl
+          | succ _ => rfl
+          | resp _ => rfl
+          | absorbed _ _ => rfl
         · exact closed_extend_absorbed (Or.inr (Or.inr hv)) (Or.inr hv) hcs
       · -- the callee has an error / ok result
         have hk : G.kind = .err ∨ G.kind = .bool := by
@@ -295,21 +384,21 @@ theorem drops_sound {P : List Fn} {A : Audit} (hW : WF P A) {f : Nat} {sk : Sk} 
           have h2 := ih2 F hF _ (.clean aft) (sat_set hs v (by rfl)) hdN
           simp only [absorbEv, CV.isHard, Bool.false_and, if_false, Bool.false_eq_true, List.nil_append]
           rw [goodW_append]
-          exact ⟨goodW_mono (fun s hcs => closed_extend_absorbed hk3 (Or.inl rfl) hcs) tr1 h1, h2⟩
+          exact ⟨goodW_mono (fun e s hcs => closed_extend_absorbed hk3 (Or.inl rfl) hcs) tr1 h1, h2⟩
         | sent =>
           have h2 := ih2 F hF _ (.clean aft) (sat_set hs v (by rfl)) hdE.1
           simp only [absorbEv, CV.isHard, Bool.false_and, if_false, Bool.false_eq_true, List.nil_append]
           rw [goodW_append]
-          exact ⟨goodW_mono (fun s hcs => closed_extend_absorbed hk3 (Or.inl rfl) hcs) tr1 h1, h2⟩
+          exact ⟨goodW_mono (fun e s hcs => closed_extend_absorbed hk3 (Or.inl rfl) hcs) tr1 h1, h2⟩
         | hard e =>
           have h2 := ih2 F hF _ _ (sat_set hs v (by rfl)) hdE.2
           rw [goodW_append]
-          refine ⟨goodW_mono (fun s hcs => ?_) tr1 h1, (hard_step (f := f) (e := e) h2).2⟩
+          refine ⟨goodW_mono (fun ev s hcs => ?_) tr1 h1, (hard_step (f := f) (e := e) h2).2⟩
           -- what follows the callee's closed suffix
           unfold hardMode at h2
           cases ht : tolLookup (tolSites A F) site with
           | some allow =>
-            simp [closed, absorbEv, CV.isHard, ht, hasAbs, Ev.isAbs]
+            cases ev <;> simp [closedFor, absorbEv, CV.isHard, ht, hasAbs, Ev.isAbs]
           | none =>
             rw [ht] at h2
             simp only [absorbEv, CV.isHard, ht, Option.isSome_none, Bool.and_false, if_false, List.nil_append, Bool.false_eq_true]
@@ -371,7 +460,7 @@ theorem drops_sound {P : List Fn} {A : Audit} (hW : WF P A) {f : Nat} {sk : Sk} 
   | @succ f n k ρ tr r _ ih =>
     intro F hF a m hs hd
     cases m with
-    | failed s b => simp [drops] at hd
+    | failed s b rt => simp [drops] at hd
     | clean aft =>
       simp only [drops, append_nil_iff] at hd
       have h2 := ih F hF a (.clean aft) hs hd.1
@@ -383,17 +472,25 @@ theorem drops_sound {P : List Fn} {A : Audit} (hW : WF P A) {f : Nat} {sk : Sk} 
       simp only [drops] at hd
       have h2 := ih F hF a (.clean aft) hs hd
       exact ⟨(fun hf => by cases hf), h2⟩
-    | failed s b =>
+    | failed s b rt =>
       simp only [drops] at hd
-      obtain ⟨h21, h22, h23⟩ := ih F hF a (.failed s true) hs hd
-      refine ⟨by simpa [noSucc, Ev.isSucc] using h21, by simpa [noFail, Ev.isFail] using h22, ?_⟩
-      cases hk : F.kind <;> simp_all [hasResp, Ev.isResp]
+      obtain ⟨hgood, h2⟩ := ih F hF a (.failed s true rt) hs hd
+      refine ⟨⟨(fun hf => by cases hf), hgood⟩, ?_⟩
+      rcases h2 with h2 | ⟨h21, h22, h23⟩
+      · left; exact ⟨h2.1, by simpa [retriedAt, Ev.isCallAt] using h2.2⟩
+      · right
+        refine ⟨by simpa [noSucc, Ev.isSucc] using h21, by simpa [noFail, Ev.isFail] using h22, ?_⟩
+        cases hk : F.kind <;> simp_all [hasResp, Ev.isResp]
+  | @attempt f i n k ρ tr r _ ih =>
+    intro F hF a m hs hd
+    simp only [drops] at hd
+    exact ih F hF a m hs hd
   | @ret f rt ρ x hv =>
     intro F hF a m hs hd
     cases m with
     | clean aft => exact trivial
-    | failed s b =>
-      refine ⟨rfl, rfl, ?_⟩
+    | failed s b rtr =>
+      refine ⟨trivial, Or.inr ⟨rfl, rfl, ?_⟩⟩
       cases hk : F.kind <;> simp only [drops, hk] at hd ⊢
       · -- void
         left
@@ -555,6 +652,9 @@ theorem exec_sound {P : List Fn} {A : Audit} : ∀ (n f : Nat) (sk : Sk) (ρ : E
       simp only [Prod.mk.injEq] at he
       obtain ⟨rfl, rfl, rfl⟩ := he
       exact .resp (ih _ _ _ _ _ _ _ hr)
+    | attempt i m k =>
+      unfold exec at h
+      exact .attempt (ih _ _ _ _ _ _ _ h)
     | ret rt =>
       unfold exec at h
       split at h
